@@ -163,6 +163,7 @@ func (v AnnotationLinkValidator) validatePathAnnotations(
 
 	seenRefValues := mapset.NewSet[string]()
 	seenAliases := mapset.NewSet[string]()
+	seenBindings := mapset.NewSet[string]()
 
 	for _, pathAttr := range v.groupedAttributes.path {
 		// Note that func params are referenced by the Value field, not the alias.
@@ -210,20 +211,28 @@ func (v AnnotationLinkValidator) validatePathAnnotations(
 		if aliasDiag != nil {
 			diags = append(diags, *aliasDiag)
 		} else {
-			// Check if the Path's alias (i.e. 'name' property) appears multiple times
-			if pAlias != nil && *pAlias != "" {
-				alias := *pAlias
+			// The URL parameter this @Path binds - its alias (i.e. 'name' property) or, lacking one, its value
+			hasAlias := pAlias != nil && *pAlias != ""
+			boundUrlParam := expectedFuncParamName
+			if hasAlias {
+				boundUrlParam = *pAlias
+			}
 
-				if seenAliases.Contains(alias) {
-					diags = append(diags, diagnostics.NewErrorDiagnostic(
-						v.receiver.Annotations.FileName(),
-						fmt.Sprintf("Duplicate @Path parameter alias '%s'", alias),
-						diagnostics.DiagLinkerDuplicatePathAliasRef,
-						pathAttr.Comment.Range(),
-					))
-				} else {
-					seenAliases.Add(alias)
-				}
+			// Check if the URL parameter is bound multiple times, be it via alias or directly by value.
+			// Two alias-less @Path attributes with the same value were already reported above.
+			if seenBindings.Contains(boundUrlParam) && (hasAlias || seenAliases.Contains(boundUrlParam)) {
+				diags = append(diags, diagnostics.NewErrorDiagnostic(
+					v.receiver.Annotations.FileName(),
+					fmt.Sprintf("Duplicate @Path parameter alias '%s'", boundUrlParam),
+					diagnostics.DiagLinkerDuplicatePathAliasRef,
+					pathAttr.Comment.Range(),
+				))
+			}
+			seenBindings.Add(boundUrlParam)
+
+			if hasAlias {
+				alias := *pAlias
+				seenAliases.Add(alias)
 
 				// Check if the alias exists as a URL parameter
 				if !slices.Contains(v.urlParams, alias) {
